@@ -109,9 +109,14 @@ class Applic(Suite):
                                 ("bio", [("parcons", ("borda", False), 0)]), ("bio", [("bioco",), ("bio", [("pick",)])])]
         for _ in range(12 if tier == "quick" else 80):
             trees.append(random_tree(rng, 2))
+        # every configuration meets every preset family and two of its multiples (the schemes an algorithm may
+        # declare relevant); the near-misses and the remaining multiples are sampled in the quick tier
+        fams = [gen.UNIFYING, gen.INDUCED, gen.UNIFYING_HALF, gen.INDUCED_HALF, gen.PSEUDO, gen.EXTENDED]
+        core = [[[x * k for x in f[0]], [x * k for x in f[1]]] for f in fams for k in (1, 2, 0.5)]
         cases = []
         for t in trees:
-            for s in (sch if tier == "thorough" else rng.sample(sch, 14)):
+            chosen = sch if tier == "thorough" else core + [x for x in rng.sample(sch, 14) if x not in core]
+            for s in chosen:
                 cases.append({"alg": t, "s": s})
         return cases
 
